@@ -26,6 +26,7 @@ RULE = (
     "on one beat, event at/inside/at the end of a warp, overlapping/nested/touching warps, event at beat 0); "
     "distinct = distinct timeline (canonical JSON of the case)"
 )
+RULE += " " + 'Added after the seeding rounds: the timing data reaches the engine from an SSC simfile, an SM simfile, an SM simfile spelling its stops FREEZES, an SM simfile with STOPS and a stale FREEZES key (before or after it), or an SSC chart beside decoy simfile values under several spellings of the version; numbers also in exponent / signed / bare-dot spelling; offset absent or empty; half-tick (off-grid) probes around every event, negative ones next to beat 0 included.'
 ASSUMPTIONS = [
     "exact rational model in vf/model_timing.py written from the documented semantics",
     "float comparison sound only inside the magnitude bound (times < 1e5 s)",
